@@ -11,9 +11,11 @@ from vlib.notrace import NoTracing
 def compile_through_one_cache(specs):
     """specs: [(template class, source text, keyword options)] -> list of template instances, compiled in this
     order with the same ModuleLoader"""
+    import sys
     from chameleon.loader import ModuleLoader
     with NoTracing():
         d = tempfile.mkdtemp(prefix='verif-cache-')
+        before = set(sys.modules)
         try:
             loader = ModuleLoader(d)
             out = []
@@ -22,3 +24,7 @@ def compile_through_one_cache(specs):
             return out
         finally:
             shutil.rmtree(d, True)
+            # ModuleLoader registers what it loads in sys.modules under the cache key: forget it again, so that
+            # one call (one explored path) cannot influence the next
+            for name in set(sys.modules) - before:
+                del sys.modules[name]
